@@ -4,6 +4,7 @@
 # This source code is licensed under the BSD-style license found in the
 # LICENSE file in the root directory of this source tree.
 import gc
+import dis
 import inspect
 import logging
 import random
@@ -233,6 +234,23 @@ def _is_resumption(frame: FrameType) -> bool:
     return True
 
 
+def _try_statement_covers(code: CodeType, offset: int) -> bool:
+    """Does a try statement of the function itself protect the instruction at offset?
+
+    In the exception table (3.11+) the handlers of `try` statements are the
+    entries that do not restore the instruction offset when they re-raise; the
+    implicit handler around every generator body and the clean-up of a `with`
+    statement do restore it.
+    """
+    parse = getattr(dis, "_parse_exception_table", None)
+    if parse is None:
+        return True
+    try:
+        return any(e.start <= offset < e.end and not e.lasti for e in parse(code))
+    except Exception:
+        return True
+
+
 # A CodeFilter is a predicate that decides whether or not a the call for the
 # supplied code object should be traced.
 CodeFilter = Callable[[CodeType], bool]
@@ -265,6 +283,9 @@ class CallTracer:
     ) -> None:
         self.logger = logger
         self.traces: Dict[FrameType, CallTrace] = {}
+        # Traced frames that were re-entered by throw() / close() at the given
+        # instruction offset and have not been left again yet
+        self.thrown_into: Dict[FrameType, int] = {}
         self.sample_rate = sample_rate
         # A generator of our own: drawing from the `random` module's shared one
         # would change the numbers a (seeded) traced program gets from it.
@@ -288,7 +309,17 @@ class CallTracer:
         if _is_resumption(frame):
             # Not a new call. Sampling it now would start a trace in the middle
             # of a generator's life, with whatever its parameters are bound to
-            # by then; if the call is being traced there is nothing to do.
+            # by then; if the call is being traced there is nothing to do,
+            # except when it is thrown into (or closed): see handle_return.
+            if frame in self.traces:
+                lasti = frame.f_lasti
+                code = frame.f_code
+                if (
+                    RESUME_OPCODE is not None
+                    and code.co_code[lasti] == YIELD_VALUE_OPCODE
+                    and not _try_statement_covers(code, lasti)
+                ):
+                    self.thrown_into[frame] = lasti
             return
         if self.sample_rate and self._random.randrange(self.sample_rate) != 0:
             return
@@ -319,6 +350,18 @@ class CallTracer:
         # yield.
         last_opcode = frame.f_code.co_code[frame.f_lasti]
         flags = frame.f_code.co_flags
+        # A generator or coroutine that is thrown into, or closed, while it is
+        # suspended at a yield (or await) that no try statement of its own
+        # protects is unwound from that very instruction: the frame is entered
+        # and left at the same YIELD_VALUE, and what looks like a yield of None
+        # is the end of the call.
+        thrown_at = self.thrown_into.pop(frame, None)
+        unwound = thrown_at is not None and thrown_at == frame.f_lasti and arg is None
+        if unwound:
+            trace = self.traces.pop(frame, None)
+            if trace is not None:
+                self.logger.log(trace)
+            return
         if last_opcode == YIELD_VALUE_OPCODE and flags & inspect.CO_ASYNC_GENERATOR:
             # An asynchronous generator suspends with YIELD_VALUE at its awaits
             # and at its yields; only a yield hands out a value, and the
